@@ -15,14 +15,15 @@ class Run(object):
     """a World with every monitor installed"""
 
     def __init__(self, rng, mtu=1500, dt=1 / 60, jitter=0.0, ctxt_setup=None, nclients=1, bitfield=True, check_nonce=True,
-                 keep_wire=False, blocklist=None, light=False):
+                 keep_wire=False, blocklist=None, light=False, blocklist_after_construction=False):
         import mpgameserver.connection as C
         self.C = C
         self.rng = rng
         self.mtu = mtu
         C.Packet.setMTU(mtu)
         self.report = Reporter()
-        self.world = L.World(rng, dt=dt, jitter=jitter, ctxt_setup=ctxt_setup, blocklist=blocklist)
+        self.world = L.World(rng, dt=dt, jitter=jitter, ctxt_setup=ctxt_setup, blocklist=blocklist,
+                             blocklist_after_construction=blocklist_after_construction)
         self.world.keep_wire = keep_wire
         self.c = self.world.counters
         self.tap = Tap(self.world).install()
@@ -296,6 +297,10 @@ def expired_signature(run, rec):
     while the sender was still retrying a lost fragment"""
     peer = peer_conn(run, rec)
     if peer is None or rec.get("frag_id") is None:
+        return False
+    if (id(peer), rec["frag_id"]) in run.tap.purged_before_store:
+        # the context was thrown away while its own arriving fragment had not been stored yet: NOT the known
+        # mechanism (the library stores first and purges afterwards, so a completing fragment always completes)
         return False
     exp = [x for x in run.tap.expired_contexts.get((id(peer), rec["frag_id"]), []) if x[0] >= rec["t"]]
     n_frag = rec["nmsgs"]
